@@ -46,7 +46,47 @@ def confirm(pid, i):
     print("stored", dst); return 0
 
 
+def run_in_worktree(name, pids):
+    """Same as run() but in a throw-away worktree of /repo's HEAD (SEED_WT=1): lets several seeded changes be
+    exercised in parallel and never touches /repo; evidence/replay of these runs go to a scratch directory."""
+    dst = f"{V}/seeded/{name}"
+    m = json.load(open(f"{dst}/meta.json"))
+    pids = pids or [m["property"]]
+    wt, outd = f"/tmp/vf-seedwt-{name}", f"/tmp/vf-seedout-{name}"
+    sh(f"git worktree remove --force {wt}", "/repo")
+    rc, o = sh(f"git worktree add -f --detach {wt} HEAD", "/repo")
+    if rc:
+        print("cannot create worktree:", o); return 2
+    try:
+        rc, o = sh(f"git apply {dst}/patch.diff", wt)
+        if rc:
+            rc, o = sh(f"git apply -3 {dst}/patch.diff", wt)
+            if rc:
+                print(f"{name}: patch does not apply to HEAD:", o[:200])
+                m.setdefault("detected_by", {})[pids[0]] = {"rc": None, "note": "patch no longer applies to the repaired tree"}
+                json.dump(m, open(f"{dst}/meta.json", "w"), indent=1, ensure_ascii=False)
+                return 2
+        for pid in pids:
+            tier = os.environ.get("SEED_TIER", "quick")
+            rc, o = sh(f"VF_REPO={wt} VF_OUT={outd} ./check {pid} {tier}", V)
+            viol = [l for l in o.splitlines() if l.startswith("VIOLATION")]
+            keys = [l.strip() for l in o.splitlines() if l.startswith("  - ")]
+            print(f"{name} vs {pid}: rc={rc} violations={len(viol)}")
+            for k in keys[:3]:
+                print("   ", k[:260])
+            if rc not in (0, 1):
+                print(o[-1200:])
+            m.setdefault("detected_by", {})[pid] = {"rc": rc, "tier": tier, "keys": [k[4:160] for k in keys[:6]]}
+    finally:
+        sh(f"git worktree remove --force {wt}", "/repo")
+        shutil.rmtree(outd, ignore_errors=True)
+    json.dump(m, open(f"{dst}/meta.json", "w"), indent=1, ensure_ascii=False)
+    return 0
+
+
 def run(name, pids):
+    if os.environ.get("SEED_WT") == "1":
+        return run_in_worktree(name, pids)
     dst = f"{V}/seeded/{name}"
     m = json.load(open(f"{dst}/meta.json"))
     pids = pids or [m["property"]]
@@ -72,7 +112,7 @@ def run(name, pids):
                 print(o[-1500:])
             m.setdefault("detected_by", {})[pid] = {"rc": rc, "tier": tier, "keys": [k[4:160] for k in keys[:6]]}
     finally:
-        sh("git checkout -- .", "/repo")
+        sh("git reset -q --hard HEAD", "/repo")  # also clears the index (git apply -3 stages what it applies)
         sh("git stash drop", "/repo") if False else None
     json.dump(m, open(f"{dst}/meta.json", "w"), indent=1, ensure_ascii=False)
     return 0
